@@ -320,6 +320,29 @@ func (c *fctx) applyContract(fr *frame, key string, ct *spec.FuncContract, fn *s
 		}
 		c.addObl(&Obligation{Name: fr.prefix + "call-requires:" + short + "#" + lbl + "@" + c.P.SrcLine(pos), Kind: "requires", Guard: reach, Goal: g.t, Pos: c.pos(pos), SrcLine: c.P.SrcLine(pos), Clause: r.Src})
 	}
+	// the callee calls some of its function-valued arguments (with arbitrary arguments)
+	for _, inv := range ct.Invokes {
+		for i, n := range pnames {
+			if n != inv {
+				continue
+			}
+			av := args[i]
+			if av.clo == nil || len(av.clo.fn.Blocks) == 0 {
+				c.used["assumed:calls through unknown function values are deterministic and effect-free"] = true
+				continue
+			}
+			var cargs []val
+			for _, prm := range av.clo.fn.Params {
+				v := c.fresh("cb."+prm.Name(), c.S.SortOf(prm.Type()))
+				c.assumeFacts(reach, v, prm.Type(), st)
+				if _, isI := types.Unalias(prm.Type()).Underlying().(*types.Interface); isI {
+					c.assume(implies(reach, fmt.Sprintf("(not (= %s nilI))", v)))
+				}
+				cargs = append(cargs, val{t: v})
+			}
+			c.inline(fr, av.clo.fn, cargs, av.clo.bindings, st, reach, pos, av.clo.fn.Signature.Results(), c.P.ContractFor(av.clo.fn))
+		}
+	}
 	// frame: havoc what the callee may assign
 	preAlloc := c.region(st, "alloc", "(Array Int Bool)")
 	c.havocAssigns(fr, ct, e, st, reach, pos)
@@ -347,6 +370,11 @@ func (c *fctx) applyContract(fr *frame, key string, ct *spec.FuncContract, fn *s
 	for _, en := range ct.Ensures {
 		g := e.tr(en.E)
 		c.assume(implies(reach, g.t))
+	}
+	for _, en := range ct.Assumes {
+		g := e.tr(en.E)
+		c.assume(implies(reach, g.t))
+		c.used["assumed-postcondition:"+key+": "+en.Src] = true
 	}
 	switch len(results) {
 	case 0:
